@@ -105,6 +105,13 @@ def gen_cases(rng, tier, scale):
         line, col = linecol(src, idx)
         data = {'t': True, 'f': False, 'l': [1], 'o': {'k': 1}, 'v': 'V'}
         pre = ['probes'] + (['strict 1'] if kind == 'missing' else [])
+        if k % 6 == 5 and where != 'part':
+            # the same template registered from a FILE with dev mode on (it is recompiled from the file at render time)
+            ops = pre + ['dev 1'] + [f'regs {x(n_)} {x(s_)}' for n_, s_ in parts.items()] + [f'fw {x("f1")} {x(main)}', f'regf {x("main")} {x("f1")}',
+                                                                                           f'r 0 {x("main")} {jtok(data)} -1']
+            cases.append({'line': f'e{k} ' + ' ; '.join(ops), 'tpl': main, 'data': data, 'kind': 'render', 'where': where, 'fkind': kind,
+                          'exp': (errtpl, line, col, reason), 'tags': [where, kind, 'dev-file']})
+            continue
         cases.append(rcase(f'e{k}', main, data, pre=pre, partials=parts, entry=rng.choice([0, 2]), kind='render', where=where, fkind=kind,
                            exp=(errtpl, line, col, reason), tags=[where, kind]))
     # compile errors: name given at registration and a position inside the source
